@@ -21,12 +21,16 @@ import (
 )
 
 type c09Event struct {
-	id   string
-	data string // "" = priming event
+	id    string
+	data  string // "" = priming event
+	retry string // value of a retry: field sent with the event ("" = none)
 }
 
 func (e c09Event) text() string {
 	var b strings.Builder
+	if e.retry != "" {
+		b.WriteString("retry: " + e.retry + "\n")
+	}
 	if e.data != "" {
 		b.WriteString("event: message\n")
 	}
@@ -51,6 +55,9 @@ type c09Opts struct {
 	// alwaysFail: every reconnect attempt ends in a transport error (the server is gone for good);
 	// with a large retry budget the client backs off many times - and must end the call with an error
 	alwaysFail bool
+	// retryField: the server sends an SSE retry: field (a reconnection delay, as SEP-1699 servers do
+	// before closing a stream they want polled) with every event, and alone in otherwise empty bodies
+	retryField bool
 }
 
 type c09Body struct {
@@ -114,6 +121,8 @@ func c09CutClass(ev string, off int) string {
 			name = "id-line"
 		case strings.HasPrefix(line, "data:"):
 			name = "data-line"
+		case strings.HasPrefix(line, "retry:"):
+			name = "retry-line"
 		}
 		if off < pos+len(line) {
 			return "in-" + name
@@ -286,6 +295,9 @@ func (s *c09Script) roundTrip(req *http.Request, n int) (*http.Response, error) 
 			s.noProg++
 			s.maxNoProg = max(s.maxNoProg, s.noProg)
 			s.connFails = 0
+			if s.o.retryField {
+				return s.resp(200, "text/event-stream", io.NopCloser(strings.NewReader("retry: 3000\n\n"))), nil
+			}
 			return s.resp(200, "text/event-stream", io.NopCloser(strings.NewReader(""))), nil
 		}
 		outcome := 0
@@ -337,7 +349,17 @@ func c09Run(o c09Opts, ch *verifx.Chooser) (obs, bad, sig string, steps int) {
 			sig, bad = "c09 "+s, fmt.Sprintf(format, a...)
 			if len(sc.eofMidEvent) > 0 {
 				// the execution contains a clean end of stream inside an event: attribute the symptom to it
-				sig += " after a clean end of stream " + sc.eofMidEvent[0]
+				// (a stream may end inside several events in one execution; the symptom is filed under the
+				// first such position, positions inside a retry: line - which carries nothing that could be
+				// truncated into something else - only if there is no other)
+				at := sc.eofMidEvent[0]
+				for _, cls := range sc.eofMidEvent {
+					if !strings.HasSuffix(cls, "retry-line") {
+						at = cls
+						break
+					}
+				}
+				sig += " after a clean end of stream " + at
 				bad += fmt.Sprintf(" [the stream ended cleanly inside an event: %v]", sc.eofMidEvent)
 			}
 		}
@@ -385,6 +407,11 @@ func c09Run(o c09Opts, ch *verifx.Chooser) (obs, bad, sig string, steps int) {
 		sc.events = append(sc.events, c09Event{id: id(k + nNotes), data: `{"jsonrpc":"2.0","id":2,"result":{"content":[{"type":"text","text":"done"}]}}`})
 	} else {
 		sc.callID = "2"
+	}
+	if o.retryField {
+		for i := range sc.events {
+			sc.events[i].retry = "40"
+		}
 	}
 	cs, err := client.Connect(ctx, tr, &ClientSessionOptions{ProtocolVersion: "2025-06-18"})
 	if err != nil {
@@ -504,6 +531,8 @@ func TestVerifC09(t *testing.T) {
 		mk("post-stream/no-ids/retries=1", c09Opts{ids: false, maxRetries: 1}),
 		mk("post-stream/ids/no-retries", c09Opts{ids: true, maxRetries: -1}),
 		mk("post-stream/ids/retries=2/empty-resumes", c09Opts{ids: true, maxRetries: 2, emptyResumes: true}),
+		mk("post-stream/ids/retries=2/empty-resumes-with-retry-field", c09Opts{ids: true, maxRetries: 2, emptyResumes: true, retryField: true}),
+		mk("post-stream/ids+priming+retry-fields/retries=1", c09Opts{ids: true, priming: true, maxRetries: 1, retryField: true}),
 		mk("standalone-stream/ids/retries=2", c09Opts{standalone: true, ids: true, maxRetries: 2}),
 		mk("post-stream/ids/12-events/retries=2", c09Opts{ids: true, maxRetries: 2, notes: 12}),
 		mk("post-stream/ids/retries=70/reconnects-always-fail", c09Opts{ids: true, maxRetries: 70, alwaysFail: true, notes: 12}),
